@@ -4,7 +4,7 @@ from __future__ import annotations
 import random
 
 from .. import gen, sem
-from ..snapshot import build, classes, pg_from_json, pg_to_json, snap
+from ..snapshot import DerivationWrong, build, build_case, classes, pg_from_json, pg_to_json, snap
 
 LEVEL = "exploration"
 RULE = (
@@ -131,8 +131,15 @@ def check_case(ctx, case):
     r, p = pg_from_json(case["r"]), pg_from_json(case["p"])
     t = pg_from_json(case["ts"]) if case["ts"] else None
     brng = random.Random(case["bseed"])
-    gr, gp = build(r, rng=brng), build(p, rng=brng)
-    gt = build(t, rng=brng) if t else None
+    try:  # reactant, product and TS reach from_graphs through independent, seed-chosen provenances (different internal orders)
+        gr, via = build_case(r, case["bseed"])
+        gp, _ = build_case(p, case["bseed"] // 15)
+        gt = build_case(t, case["bseed"] // 225)[0] if t else None
+    except DerivationWrong as e:
+        ctx.violate(f"C08/derived-input-differs/{cls}/{e.via}", f"deriving an input graph: {e}", case)
+        ctx.case()
+        return
+    ctx.count(f"via:{via}")
     R, P = set(r["bonds"]), set(p["bonds"])
     T = set(t["bonds"]) if t else R | P
     differs = R != P or bool(sem.pg_diff(r, p, mode="equiv", attrs=False)) or bool(T - (R | P)) or bool(t and (t["astereo"] or t["bstereo"]))
